@@ -17,41 +17,41 @@ Proof.
     destruct pres; lia.
 Qed.
 
-Lemma n_acks_list_bound pres : forall (l : list src),
-  (n_acks_list pres (map src_entry l) <= 3 * length (top_files l))%nat.
+Lemma n_acks_list_bound pres c : forall (l : list src),
+  (n_acks_list pres (map (sent_entry c) l) <= 3 * length (top_files l))%nat.
 Proof.
   induction l as [|[[pre k] n] r IH]; [cbn; lia|].
-  cbn [map src_entry top_files length]. rewrite n_acks_list_cons, app_length.
+  cbn [map sent_entry top_files length]. rewrite n_acks_list_cons, app_length.
   pose proof (n_acks_bound pres n (pre ++ [k])) as H. cbn [length] in H. lia.
 Qed.
 
 Theorem copy_is_sink_encode cfg c fs (l : list src) dp t dm dt de :
-  cc_suffix c = None -> cc_preserve c = c_preserve cfg ->
+  cc_preserve c = c_preserve cfg ->
   (forall pre k n, In (pre, k, n) l ->
      lookup (cc_fs c) (cc_cwd c ++ pre ++ [k]) = Some n /\ (pre <> [] \/ beq k sentinel = false)) ->
-  wf_src_list cfg (map src_entry l) -> names_distinct (map src_entry l) ->
-  fits_list (length (c_dest cfg)) (map src_entry l) ->
-  (forall k v, In (k, v) (map src_entry l) -> assoc k de = None) ->
+  wf_src_list cfg (map (sent_entry c) l) -> names_distinct (map (sent_entry c) l) ->
+  fits_list (length (c_dest cfg)) (map (sent_entry c) l) ->
+  (forall k v, In (k, v) (map (sent_entry c) l) -> assoc k de = None) ->
   resolve fs (c_cwd cfg) (c_dest cfg) = ROk dp t -> lookup fs dp = Some (Dir dm dt de) ->
-  copy cfg fs c (top_files l) = sink cfg fs (encode_list (c_preserve cfg) (map src_entry l)).
+  copy cfg fs c (top_files l) = sink cfg fs (encode_list (c_preserve cfg) (map (sent_entry c) l)).
 Proof.
-  intros Hns Hp Hsrc Hwf Hd Hfit Hfresh Hr Hl.
-  assert (Hcl : forall rs k, (1 + n_acks_list (cc_preserve c) (map src_entry l) <= k)%nat ->
-            client c (top_files l) (repeat Ack k ++ rs) = encode_list (cc_preserve c) (map src_entry l)).
+  intros Hp Hsrc Hwf Hd Hfit Hfresh Hr Hl.
+  assert (Hcl : forall rs k, (1 + n_acks_list (cc_preserve c) (map (sent_entry c) l) <= k)%nat ->
+            client c (top_files l) (repeat Ack k ++ rs) = encode_list (cc_preserve c) (map (sent_entry c) l)).
   { intros rs k Hk.
-    replace k with ((1 + n_acks_list (cc_preserve c) (map src_entry l)) + (k - (1 + n_acks_list (cc_preserve c) (map src_entry l))))%nat by lia.
-    rewrite repeat_app, <- app_assoc. apply client_all_acks; [exact Hns|].
+    replace k with ((1 + n_acks_list (cc_preserve c) (map (sent_entry c) l)) + (k - (1 + n_acks_list (cc_preserve c) (map (sent_entry c) l))))%nat by lia.
+    rewrite repeat_app, <- app_assoc. apply client_all_acks.
     intros pre k0 n Hin'. destruct (Hsrc pre k0 n Hin') as [A B]. repeat split; auto.
     apply (wf_src_names cfg).
-    assert (Hi : In (k0, n) (map src_entry l)) by (change (k0, n) with (src_entry (pre, k0, n)); now apply in_map).
-    clear -Hwf Hi. induction (map src_entry l) as [|[k' v'] r IH]; [destruct Hi|].
+    assert (Hi : In (k0 ++ suffix_of c true, n) (map (sent_entry c) l)) by (change (k0 ++ suffix_of c true, n) with (sent_entry c (pre, k0, n)); now apply in_map).
+    clear -Hwf Hi. induction (map (sent_entry c) l) as [|[k' v'] r IH]; [destruct Hi|].
     cbn [wf_src_list] in Hwf. destruct Hwf as (_ & Hv & Hr). destruct Hi as [E|Hi]; [inversion E; subst; exact Hv|auto]. }
   unfold copy.
-  pose proof (n_acks_list_bound (cc_preserve c) l) as Hb.
-  assert (Hs1 : client c (top_files l) (repeat Ack (n_answers (top_files l))) = encode_list (c_preserve cfg) (map src_entry l)).
+  pose proof (n_acks_list_bound (cc_preserve c) c l) as Hb.
+  assert (Hs1 : client c (top_files l) (repeat Ack (n_answers (top_files l))) = encode_list (c_preserve cfg) (map (sent_entry c) l)).
   { rewrite <- (app_nil_r (repeat Ack _)), Hcl, Hp; [reflexivity|]. unfold n_answers. lia. }
   rewrite Hs1.
-  destruct (sink_encode cfg fs (map src_entry l) dp t dm dt de Hr Hl Hwf Hd Hfit Hfresh)
+  destruct (sink_encode cfg fs (map (sent_entry c) l) dp t dm dt de Hr Hl Hwf Hd Hfit Hfresh)
     as (w' & fs' & Es & Ef & Hset & Hrep & Hseen & Hin).
   rewrite Es. cbn [fst]. rewrite Hseen, <- Hp.
   rewrite <- (app_nil_r (repeat Ack _)), Hcl by lia. rewrite beq_refl. reflexivity.
